@@ -48,12 +48,19 @@ _cache = {}
 def gen_case(rng):
     opts = kgen.Opts(p_part=rng.choice([0.6, 0.9]), id_pool=4, fancy_ids=False, ts_style='small', max_rows=4, image_pool=5,
                      partial_poses=False, nested_rigs=rng.random() < 0.4, dtypes=['float32'])
+    cross = rng.random() < 0.25
+    if cross:
+        # the cross-type dangling observation needs two keypoints types with different image coverage and observations
+        opts.force_parts = {'records_camera', 'keypoints', 'points3d', 'observations'}
+        opts.min_kp_types = 2
+        opts.image_pool = 6
+        opts.max_rows = 6
     d = kgen.gen_dataset(rng, opts)
     inj = []
     kinds = ['ghost_record', 'wrong_kind_record', 'ghost_traj', 'ghost_rig_member', 'rig_collision', 'orphan_feature',
-             'missing_feature', 'ghost_obs_type', 'ghost_obs_image', 'ghost_match']
+             'missing_feature', 'ghost_obs_type', 'ghost_obs_image', 'ghost_obs_other_type', 'ghost_match']
     for k in kinds:
-        if rng.random() < 0.25:
+        if (k == 'ghost_obs_other_type' and cross) or (k != 'ghost_obs_other_type' and rng.random() < 0.25):
             inj.append([k, rng.randrange(10 ** 6)])
     return {'d': d, 'inject': inj, 'version': rng.choice(VERSIONS), 'tar': sorted(k for k in ('keypoints', 'descriptors', 'matches')
                                                                                    if rng.random() < 0.2)}
@@ -112,6 +119,14 @@ def inject(case, root):
             append_line(os.path.join(root, 'reconstruction', 'observations.txt'), '0, ghost_type, img00.jpg, 3')
         elif kind == 'ghost_obs_image' and d['observations'] is not None and d['keypoints']:
             append_line(os.path.join(root, 'reconstruction', 'observations.txt'), f'0, {rng.choice(list(d["keypoints"]))}, ghost_image.jpg, 3')
+        elif kind == 'ghost_obs_other_type' and d['observations'] is not None and d['keypoints'] and len(d['keypoints']) > 1:
+            # an image that HAS keypoints of one type, observed under another type for which it has none
+            for ty, v in d['keypoints'].items():
+                others = [(t2, im) for t2, v2 in d['keypoints'].items() if t2 != ty for im in v2['images'] if im not in v['images']]
+                if others:
+                    _, im = rng.choice(others)
+                    append_line(os.path.join(root, 'reconstruction', 'observations.txt'), f'0, {ty}, {im}, 3')
+                    break
         elif kind == 'ghost_match' and d['matches'] and 'matches' not in case['tar']:
             ty = rng.choice(list(d['matches']))
             p = os.path.join(root, 'reconstruction', 'matches', ty, 'ghost_a.jpg.overlapping', 'ghost_b.jpg.matches')
